@@ -256,3 +256,91 @@ func zzH_C01_negotiate() {
 	verifAssert(cfg.Newline == sc.Newline, "the two ends frame lines differently")
 	verifReach("negotiated")
 }
+
+// ---- the whole file loop: sendFiles on one side, recvFiles on the other (NUM, NAME, SIZE, DATA, MD5 per file),
+// over the stub file system / sandbox: whatever the protocol, mode and prior destination, after both ends report
+// success the destination holds exactly the source files under the names reported
+
+func zzH_C01_files() {
+	root := verifFSRoot()
+	sroot := root[:len(root)-4] + "src"
+	verifFSAddDir(sroot)
+	nfiles := verifNondetRange(1, verifBound("FILES"))
+	names := []string{"a", "b"}
+	var contents [][]byte
+	var srcs []*sourceFile
+	for i := 0; i < nfiles; i++ {
+		n := verifNondetRange(0, verifBound("SIZE"))
+		c := make([]byte, n)
+		for j := range c {
+			c[j] = verifNondetByte()
+		}
+		verifFSAddFile(sroot+"/"+names[i], c)
+		contents = append(contents, c)
+		srcs = append(srcs, &sourceFile{PathID: i, AbsPath: sroot + "/" + names[i], RelPath: []string{names[i]}, Size: int64(n)})
+	}
+	overwrite := verifNondetBool()
+	hadOld := verifNondetBool()
+	if hadOld {
+		verifFSAddFile(root+"/a", []byte("old"))
+	}
+	verifFSBegin()
+	S := newTransfer(nil, nil, false, nil)
+	R := newTransfer(nil, nil, false, nil)
+	S.writer, R.writer = &zzPipe1{R}, &zzPipe1{S}
+	proto := verifNondetRange(1, 4)
+	binary := verifNondetBool()
+	directory := verifNondetBool()
+	for _, t := range []*trzszTransfer{S, R} {
+		t.transferConfig.Protocol = proto
+		t.transferConfig.Timeout = 0
+		t.transferConfig.Binary = binary
+		t.transferConfig.Directory = directory
+		t.transferConfig.Overwrite = overwrite
+		t.transferConfig.MaxBufSize = 8
+	}
+	S.bufferSize.Store(4)
+	if !binary {
+		for _, c := range contents {
+			for _, b := range c {
+				verifAssume(b >= 'A') // identity base64 stub: keep the payload inside the base64 alphabet (symbolic build)
+				verifAssume(b <= 'Z')
+			}
+		}
+	}
+	var remoteNames, localNames []string
+	var serr, rerr error
+	sdone, rdone := false, false
+	go func() { remoteNames, serr = S.sendFiles(srcs, nil); sdone = true }()
+	go func() { localNames, rerr = R.recvFiles(root, nil); rdone = true }()
+	verifQuiesce()
+	for i := 0; i < 4 && !(sdone && rdone); i++ {
+		verifAdvanceTime()
+		verifQuiesce()
+	}
+	verifAssert(sdone, "sender did not complete over a fault-free connection")
+	verifAssert(rdone, "receiver did not complete over a fault-free connection")
+	verifAssert(serr == nil, "sender failed over a fault-free connection")
+	verifAssert(rerr == nil, "receiver failed over a fault-free connection")
+	verifAssert(len(localNames) == nfiles, "number of names reported by the receiver")
+	verifAssert(len(remoteNames) == nfiles, "number of names reported to the sender")
+	for i := 0; i < nfiles && i < len(localNames) && i < len(remoteNames); i++ {
+		verifAssert(localNames[i] == remoteNames[i], "the two ends report different names")
+		want := names[i]
+		if i == 0 && hadOld && !overwrite {
+			want = "a.0"
+		}
+		verifAssert(localNames[i] == want, "reported name is not the name that had to be used")
+		got := verifFSContent(root + "/" + localNames[i])
+		verifAssert(len(got) == len(contents[i]), "destination length differs from the source")
+		for j := 0; j < len(contents[i]) && j < len(got); j++ {
+			verifAssert(got[j] == contents[i][j], "destination content differs from the source")
+		}
+	}
+	if hadOld && !overwrite {
+		old := verifFSContent(root + "/a")
+		verifAssert(string(old) == "old", "pre-existing file modified without -y")
+	}
+	verifAssert(verifFSOpenHandles() == 0, "files left open after the transfer")
+	verifReach("files-transferred")
+}
